@@ -68,6 +68,7 @@ class AliasMod(object):
         self.mod = {}  # qual -> {param: witness}
         self.ret = {}  # qual -> set of roots ('p', name) | ('g', qual)
         self._memo = {}
+        self._loops = {}
         self._cur = None
         self.rounds = 0
         self.solve()
@@ -135,10 +136,21 @@ class AliasMod(object):
         if op == "loop":
             return self.roots(t.a[2], f) | self.roots(t.a[3], f)
         if op == "loopvar":
-            return self.roots(t.a[2], f)
+            # the variable at the top of an iteration: its initial value or what an earlier iteration left in it
+            out = set(self.roots(t.a[2], f))
+            body = self._loop_body(f, t.a[0], t.a[1])
+            if body is not None:
+                out |= self.roots(body, f)
+            return out
         if op == "upd":
-            return self.roots(t.a[0], f)
+            out = set(self.roots(t.a[0], f))
+            # a Python list / dict keeps references: what is appended to or stored in it stays reachable through it
+            if t.a[1] in ("method:append", "method:insert", "method:extend", "setitem", "method:setdefault") and self._is_list(t.a[0], f):
+                out |= self.roots(t.a[3], f)
+            return out
         if op == "iter":
+            if self.ndim(t.a[0], f) == 1:
+                return set()  # the elements of a 1-d array are scalars
             return self.roots(t.a[0], f)
         if op in ("tuple", "list", "set", "star"):
             out = set()
@@ -166,6 +178,63 @@ class AliasMod(object):
         if op == "call":
             return self._call_roots(t, f)
         return set()
+
+    def _loop_body(self, f, lid, name):
+        key = f.qual
+        tab = self._loops.get(key)
+        if tab is None:
+            tab = {}
+            s = self.S.get(f.qual)
+            seen = set()
+            stack = [r.term for r in s.returns]
+            for x in s.sites:
+                for v in x.d.values():
+                    if hasattr(v, "op") and hasattr(v, "id"):
+                        stack.append(v)
+            if s.final_env:
+                stack.extend(v for v in s.final_env.values() if hasattr(v, "op") and hasattr(v, "id"))
+            for t0 in stack:
+                for x in tm.walk(t0):
+                    if x.id in seen:
+                        continue
+                    seen.add(x.id)
+                    if x.op == "loop":
+                        tab[(x.a[0], x.a[1])] = x.a[3]
+            self._loops[key] = tab
+        return tab.get((lid, name))
+
+    def ndim(self, t, f, depth=0):
+        """number of array dimensions where the numpydoc shape of a parameter and the indexing say so, else None"""
+        if depth > 20:
+            return None
+        if t.op == "param":
+            for n, ty, _ in f.docinfo["params"]:
+                if t.a[0] in [x.strip() for x in n.split(",")]:
+                    m = re.search(r"shape\s*=\s*\(([^)]*)\)", ty)
+                    if m and "ndarray" in ty:
+                        dims = [d for d in m.group(1).split(",") if d.strip()]
+                        return len(dims)
+            return None
+        if t.op == "sub":
+            b = self.ndim(t.a[0], f, depth + 1)
+            if b is None:
+                return None
+            idx = t.a[1]
+            items = list(idx.a) if idx.op == "tuple" else [idx]
+            for it in items:
+                if it.op == "slice":
+                    continue
+                if it.op == "const" and isinstance(it.a[0], (int, float)) and not isinstance(it.a[0], bool):
+                    b -= 1
+                elif it.op == "idx":
+                    b -= 1
+                else:
+                    return None
+            return b if b >= 0 else None
+        if t.op == "iter":
+            b = self.ndim(t.a[0], f, depth + 1)
+            return None if b is None or b < 1 else b - 1
+        return None
 
     def _is_fancy(self, idx):
         """Boolean-mask / integer-array indexing copies; slices, ints, newaxis view."""
